@@ -76,7 +76,7 @@ WriteEntry(s, n, c, a) ==
     ELSE IF s.tree[n].c = c THEN Res(s, "ok")           \* same checksum: nothing is done
     ELSE LET cut == Cut(s, c)
              rest == Size(s.sz, c) - cut
-             dst == IF s.single THEN None ELSE a     \* single file: everything stays in the one file
+             dst == IF s.single \/ s.limit = None THEN None ELSE a   \* single file or no limit: everything stays in the directory file
              pcv == IF cut = 0 THEN 0 ELSE c
          IN IF rest = 0 THEN
                 Res([s EXCEPT !.tree = Put(@, n, [c |-> c, plen |-> cut, pc |-> pcv, idx |-> None, off |-> 0, len |-> 0]),
